@@ -2233,6 +2233,18 @@ func TestC12(t *testing.T) {
 		}
 		if out.SerialNote != "" {
 			serialNotes++
+			if os.Getenv("C12_DBG") == "1" {
+				b, _ := json.Marshal(cs.Trace)
+				tr2, _ := c12DecodeStateTrace(b)
+				hits := 0
+				for k := 0; k < 10; k++ {
+					o2, _ := runC12StateWith(tr2, fs, c12ReplayPicker(tr2.Sched))
+					if o2.SerialNote != "" || o2.Err != nil {
+						hits++
+					}
+				}
+				t.Logf("C12 DBG: in-process replays of the noted trace that deviate from the model: %d/10", hits)
+			}
 			if serialNotes <= 2 {
 				b, _ := json.Marshal(cs.Trace)
 				t.Logf("C12 note (not a C12 violation): %s; trace %s", out.SerialNote, b)
